@@ -1369,6 +1369,9 @@ func (fr *Frame) guardedAccess(a *Addr, b *ssa.BasicBlock, in ssa.Instruction, s
 	if a.Kind != aField || !fr.isTop || fc.spec == nil {
 		return
 	}
+	if strings.Contains(a.Obj, "!new!") {
+		return // the object is being constructed by this activation and is not shared yet
+	}
 	stn := structName(a.ST)
 	fname := a.ST.Underlying().(*types.Struct).Field(a.F).Name()
 	for _, gd := range fc.g.specs.Guards {
